@@ -402,6 +402,17 @@ class World:
         return self._apply_env(ex, con, fs, dict(env), None, node)
 
     def _apply_env(self, ex, con, fsrc, env, clos, node):
+        try:
+            return self._apply_env2(ex, con, fsrc, env, clos, node)
+        except PyExc as pe:
+            if getattr(pe, "from_contract", False):
+                raise
+            # an exception while EVALUATING a clause of the callee's contract is a defect of the contract
+            # (or of this call's fit to it), never an exception of the program under verification
+            raise ContractError("clause of the contract of %s raised %s (%s) at a call site" % (
+                con.qualname, pe.exc.cls.name, pe.exc.origin))
+
+    def _apply_env2(self, ex, con, fsrc, env, clos, node):
         fr = Frame(fsrc, env, contract=con, closure=clos)
         fr.is_spec = True
         cname = None
@@ -469,7 +480,9 @@ class World:
             return res
         e = evals[en]
         e.fields.pop("__abstract__", None)
-        raise PyExc(e, node)
+        pe = PyExc(e, node)
+        pe.from_contract = True      # the callee's declared exceptional outcome
+        raise pe
 
     def contract_result(self, ex, con, fr):
         r = con.result
@@ -663,6 +676,8 @@ class World:
             return z3.Or(*[self.isinstance_(ex, v, k) for k in c.items])
         if isinstance(c, VFunc) and c.name == "type":
             c = self.classes.of_py(type)
+        if isinstance(c, VRec) and hasattr(c.model, "instancecheck"):
+            return c.model.instancecheck(ex, c, v)
         if not isinstance(c, VCls):
             if isinstance(c, VObj):
                 return sym.sub(sym.ty(ex.box(v)), c.t)
@@ -1226,6 +1241,15 @@ class World:
                         d.keys, d.vals, d.n = nk, nv, z3.simplify(d.n - 1)
                     return val
                 return VFunc("dict." + name, getpop)
+            if name == "update":
+                def update(ex_, a, k):
+                    if len(a) == 1 and isinstance(a[0], (VMap, VDict)) and not k:
+                        w.ext.use(ex_, "dict.update(other): the receiver's entries are replaced/extended (content havocked); `other` is only read")
+                        w.ext.mutated(ex_, d, "update")
+                        w.ext.havoc_inplace(ex_, d, "upd")
+                        return VNone()
+                    raise Unsupported("dict.update(%r)" % (a,))
+                return VFunc("dict.update", update)
             if name == "setdefault":
                 def setdefault(ex_, a, k):
                     key = a[0]
